@@ -24,10 +24,17 @@ def main():
         rep.broken(w)
     checker = ('cd /verif/coq && make -k -j16 && coqc -Q theories ClasticV theories/Props/%s.v '
                '(parsing every Print Assumptions answer)' % a.prop)
-    if a.replay:
-        mod.replay(rep, b, a.replay)
-    else:
-        mod.run(rep, b, tier, seed)
+    try:
+        if a.replay:
+            mod.replay(rep, b, a.replay)
+        else:
+            mod.run(rep, b, tier, seed)
+    except Exception:
+        # the machinery itself failed on this tree (an oracle or a comparison met something it was not written for):
+        # fail closed - the property is no longer shown to hold - and say where
+        import traceback
+        rep.broken('the check itself raised while exploring this tree (nothing it reports below is complete): '
+                   + traceback.format_exc()[-1800:])
     if tier == 'thorough' and b.props_ok:
         ok, axioms, tail = core.coqchk(a.prop)
         rep.extra['coqchk'] = {'ok': ok, 'axioms': axioms}
